@@ -459,6 +459,12 @@ class Context:
                 return this
             comparator = args[0] if args else None
 
+            def value_to_string(value):
+                vm = self._current_vm
+                if isinstance(value, JSObject) and vm is not None:
+                    return vm._object_to_string(value)
+                return to_string(value)
+
             # Default string comparison
             def default_compare(a, b):
                 # undefined values sort to the end
@@ -468,9 +474,10 @@ class Context:
                     return 1
                 if b is UNDEFINED:
                     return -1
-                # Convert to strings and compare
-                str_a = to_string(a)
-                str_b = to_string(b)
+                # Convert to strings and compare (objects by their own toString,
+                # nested arrays by joining)
+                str_a = value_to_string(a)
+                str_b = value_to_string(b)
                 if str_a < str_b:
                     return -1
                 if str_a > str_b:
